@@ -74,6 +74,12 @@ func (k *DNSKEY) ReadPrivateKey(q io.Reader, file string) (crypto.PrivateKey, er
 
 // Read a private key (file) string and create a public key. Return the private key.
 func readPrivateKeyRSA(m map[string]string) (*rsa.PrivateKey, error) {
+	// The fields that make the key have to be there.
+	for _, k := range []string{"modulus", "publicexponent", "privateexponent", "prime1", "prime2"} {
+		if _, ok := m[k]; !ok {
+			return nil, ErrPrivKey
+		}
+	}
 	p := new(rsa.PrivateKey)
 	p.Primes = []*big.Int{nil, nil}
 	for k, v := range m {
@@ -106,9 +112,11 @@ func readPrivateKeyRSA(m map[string]string) (*rsa.PrivateKey, error) {
 }
 
 func readPrivateKeyECDSA(m map[string]string) (*ecdsa.PrivateKey, error) {
+	if _, ok := m["privatekey"]; !ok {
+		return nil, ErrPrivKey
+	}
 	p := new(ecdsa.PrivateKey)
 	p.D = new(big.Int)
-	// TODO: validate that the required flags are present
 	for k, v := range m {
 		switch k {
 		case "privatekey":
@@ -125,8 +133,10 @@ func readPrivateKeyECDSA(m map[string]string) (*ecdsa.PrivateKey, error) {
 }
 
 func readPrivateKeyED25519(m map[string]string) (ed25519.PrivateKey, error) {
+	if _, ok := m["privatekey"]; !ok {
+		return nil, ErrPrivKey
+	}
 	var p ed25519.PrivateKey
-	// TODO: validate that the required flags are present
 	for k, v := range m {
 		switch k {
 		case "privatekey":
